@@ -49,6 +49,8 @@ MODELS = [
     ('free-floating: free root with hinge and slide children', [dict(parent=-1, joints=F), dict(parent=0, joints=H), dict(parent=0, joints=S)], True),
     ('double pendulum with a slide (world-attached, rotated bodies, springs)', [dict(parent=-1, joints=H), dict(parent=0, joints=S), dict(parent=1, joints=H)], False),
 ]
+MODELS.append(('double pendulum whose lower body has a hinge followed by a spring-loaded slide (joint stack)',
+               [dict(parent=-1, joints=H), dict(parent=0, joints=H + S)], False))
 MODELS_THOROUGH = [
     ('free-floating chain with a hinge-slide stack', [dict(parent=-1, joints=F), dict(parent=0, joints=H + S), dict(parent=1, joints=H)], True),
     ('world-attached slide-hinge stack with a hinge child', [dict(parent=-1, joints=S + H), dict(parent=0, joints=H)], False),
